@@ -169,7 +169,10 @@ G_Term(cls, m, n, b, seed, depth, mode) ==
                 front == (seed % 2 = 1) /\ Len(b) > 0
                 bb == IF front THEN <<k>> \o b ELSE b \o <<k>>
                 bd == IF front THEN 0 ELSE -3
-                base == sub(m \div k, n \div k, bb, seed + 3)
+                \* the Block classes refuse diagonal bases in their constructor (explicit NotImplementedError)
+                base == IF d1 <= 0 THEN G_Term(G_Pick(IF mode = 1 THEN <<"Dense", "Toeplitz", "Chol">> ELSE G_NonDiagLeaf, seed),
+                                               m \div k, n \div k, bb, seed + 3, 0, mode)
+                        ELSE sub(m \div k, n \div k, bb, seed + 3)
             IN IF cls = "BlockDiag" THEN Op_BlockDiag(base, bd) ELSE Op_BlockInter(base, bd)
        [] cls = "SumBatch" ->
             LET k == 2 + (seed % 2)
